@@ -465,7 +465,7 @@ func (c *c09) run(tape *kernel.Tape) {
 			})
 			add(n+"@code", func() *world.Resp {
 				return w.PostForm("/oauth/token", url.Values{"grant_type": {"authorization_code"}, "code": {tok}, "redirect_uri": {w.Store.Clients[owner].Redirects[0]},
-					"code_verifier": {"verifier-0123456789abcdefghijklmnopqrstuvwxyz-ABCDEFGHIJ-" + owner}}, creds)
+					"code_verifier": {"verifier.0123456789_abcdefghijklmnopqrstuvwxyz~ABCDEFGHIJ-" + owner}}, creds)
 			})
 		}
 	}
